@@ -4,6 +4,7 @@ import (
 	"fmt"
 	"go/ast"
 	"go/constant"
+	"go/token"
 	"go/types"
 	"sort"
 	"strings"
@@ -277,6 +278,67 @@ func (h H) adminBodies(rule string) {
 		}
 	})
 	h.C.Floor(rule+" response-polarity (decoder sites)", nPol, 3)
+	// … and then the caller gets an error: every return behind a non-empty kind
+	// string hands back an error that cannot be nil (a failed task must never
+	// read as success on the client)
+	dfi := h.P.Info(dt)
+	var nonNil func(v ssa.Value, at ssa.Instruction, depth int) bool
+	nonNil = func(v ssa.Value, at ssa.Instruction, depth int) bool {
+		if ph, isPhi := v.(*ssa.Phi); isPhi && depth < 4 {
+			live := h.P.LivePhiEdges(ph, at)
+			for i, e := range ph.Edges {
+				if live != nil && !live[i] {
+					continue
+				}
+				pred := ph.Block().Preds[i]
+				if !nonNil(e, pred.Instrs[len(pred.Instrs)-1], depth+1) {
+					return false
+				}
+			}
+			return len(ph.Edges) > 0
+		}
+		if h.P.NeverNil(v, 0) {
+			return true
+		}
+		isNil, known := core.NilnessAt(v, at)
+		return known && !isNil
+	}
+	nErr := 0
+	kind := core.MkAtom("readString($1)#0", "!=", `""`)
+	type leafT struct {
+		v  ssa.Value
+		at ssa.Instruction
+	}
+	var leaves func(v ssa.Value, at ssa.Instruction, depth int) []leafT
+	leaves = func(v ssa.Value, at ssa.Instruction, depth int) []leafT {
+		if ph, isPhi := v.(*ssa.Phi); isPhi && depth < 4 {
+			var out []leafT
+			live := h.P.LivePhiEdges(ph, at)
+			for i, e := range ph.Edges {
+				if live != nil && !live[i] {
+					continue
+				}
+				pred := ph.Block().Preds[i]
+				out = append(out, leaves(e, pred.Instrs[len(pred.Instrs)-1], depth+1)...)
+			}
+			return out
+		}
+		return []leafT{{v, at}}
+	}
+	for k, r := range core.Returns(dt) {
+		if len(r.Results) != 2 {
+			continue
+		}
+		// a value merged from several places is judged where it was chosen
+		for j, lf := range leaves(retOperand(r, 1), r, 0) {
+			if !dfi.MustCrossAtom(lf.at, kind).OK {
+				continue
+			}
+			nErr++
+			h.C.Check(rule+" response-polarity", fmt.Sprintf("decodeTaskResp error-kind return#%d.%d", k+1, j+1), nonNil(lf.v, lf.at, 0), h.pos(lf.at), "a task response that carries an error kind is decoded into a nil error: the failed task reads as success")
+		}
+	}
+	h.C.Floor(rule+" response-polarity (returns behind a non-empty kind string)", nErr, 4)
 	// both start with the error-kind string
 	h.C.Check(rule+" response-prefix", "encodeTaskResp ↔ decodeTaskResp [kind string]", len(gd) > 0 && gd[0].Kind == "string" && strings.HasPrefix(kinds(ge), "alt{string"), h.fpos(et), "a task response must start with the error-kind string on both sides: encode=["+kinds(ge)+"] decode=["+kinds(gd)+"]")
 }
@@ -347,7 +409,21 @@ func (h H) registries(rule string) {
 		h.C.Check(rule+" isValid-polarity", h.name(fn)+" both-answers", nT >= 1 && nF >= 1, h.fpos(fn), "isValid must answer true for declared and false for other values")
 	}
 	fl := h.fn("raft:(rpcType).fromLeader")
-	h.C.Check(rule+" fromLeader", h.name(fl), setEq(h.switchCaseNames(fl), []string{"rpcAppendEntries", "rpcInstallSnap", "rpcTimeoutNow"}), h.fpos(fl), fmt.Sprintf("requests whose payload the raft goroutine reads itself: %v", h.switchCaseNames(fl)))
+	// decided on the function's value for each declared constant, whatever
+	// form (switch, if chain, boolean expression) it is written in
+	var trueFor []string
+	okEval := true
+	for name, val := range h.constsOfType("rpcType") {
+		r, known := evalEnumPredicate(fl, val)
+		if !known {
+			okEval = false
+		}
+		if r {
+			trueFor = append(trueFor, name)
+		}
+	}
+	sort.Strings(trueFor)
+	h.C.Check(rule+" fromLeader", h.name(fl), okEval && setEq(trueFor, []string{"rpcAppendEntries", "rpcInstallSnap", "rpcTimeoutNow"}), h.fpos(fl), fmt.Sprintf("requests whose payload the raft goroutine reads itself: %v (evaluated for every declared rpc type: %v)", trueFor, okEval))
 	// createReq/createResp map each rpc type to its own message types
 	for _, spec := range []string{"raft:(rpcType).createReq", "raft:(rpcType).createResp"} {
 		fn := h.fn(spec)
@@ -598,21 +674,146 @@ func (h H) handlersDrainPayload(rule string) {
 	in := h.fn("raft:(*Raft).onInstallSnapRequest")
 	ifi := h.P.Info(in)
 	m := 0
+	copied := func(a core.Atom) bool {
+		return a.Op == "==" && a.R == "nil" && strings.HasPrefix(a.L, "io.CopyN(") && strings.HasSuffix(a.L, "#1")
+	}
+	// a returned value merged from several places is judged per place: the
+	// value chosen there, and the paths into that choice
+	var judge func(v ssa.Value, at ssa.Instruction, depth int) (ok, normal bool, what string)
+	judge = func(v ssa.Value, at ssa.Instruction, depth int) (bool, bool, string) {
+		if ph, isPhi := v.(*ssa.Phi); isPhi && depth < 4 {
+			live := h.P.LivePhiEdges(ph, at)
+			allOK, anyNormal := true, false
+			what := ""
+			for i, e := range ph.Edges {
+				if live != nil && !live[i] {
+					continue
+				}
+				pred := ph.Block().Preds[i]
+				ok, normal, w := judge(e, pred.Instrs[len(pred.Instrs)-1], depth+1)
+				if !ok {
+					allOK = false
+					what = w
+				}
+				anyNormal = anyNormal || normal
+			}
+			return allOK, anyNormal, what
+		}
+		s := ifi.SymAt(v, at).String()
+		if s == readErr || s == unexp {
+			return true, false, s
+		}
+		if strings.HasPrefix(s, "(*Raft).onInstallSnapRequest$") && strings.HasSuffix(s, "#0") {
+			return true, true, s // through the drain closure
+		}
+		return ifi.MustCross(at, copied).OK, true, s
+	}
 	for k, r := range core.Returns(in) {
-		v := h.retVal(r, 0).String()
 		site := fmt.Sprintf("(*Raft).onInstallSnapRequest return#%d", k+1)
-		if v == readErr || v == unexp {
+		v := r.Results[0]
+		if u, isLoad := v.(*ssa.UnOp); isLoad { // defer-spilled result
+			if a, isCell := u.X.(*ssa.Alloc); isCell {
+				for j := len(r.Block().Instrs) - 1; j >= 0; j-- {
+					if st, isSt := r.Block().Instrs[j].(*ssa.Store); isSt && st.Addr == ssa.Value(a) {
+						v = st.Val
+						break
+					}
+				}
+			}
+		}
+		ok, normal, what := judge(v, r, 0)
+		if !normal && ok {
 			continue
 		}
 		m++
-		if strings.HasPrefix(v, "(*Raft).onInstallSnapRequest$") && strings.HasSuffix(v, "#0") {
-			h.C.Check(rule, site, true, h.pos(r), "returns through the drain closure")
-			continue
-		}
-		res := ifi.MustCross(r, func(a core.Atom) bool {
-			return a.Op == "==" && a.R == "nil" && strings.HasPrefix(a.L, "io.CopyN(") && strings.HasSuffix(a.L, "#1")
-		})
-		h.C.Check(rule, site, res.OK, h.pos(r), "the install handler answers "+v+" although the snapshot bytes announced by the request may still be unread on the connection")
+		h.C.Check(rule, site, ok, h.pos(r), "the install handler answers "+what+" although the snapshot bytes announced by the request may still be unread on the connection")
 	}
 	h.C.Floor(rule+" (normal returns of the install handler)", m, 2)
+}
+
+// evalEnumPredicate evaluates a func (t T) bool whose only input is its
+// receiver, for t == val, by constant folding along the CFG.
+func evalEnumPredicate(fn *ssa.Function, val constant.Value) (result, known bool) {
+	if len(fn.Params) != 1 || len(fn.Blocks) == 0 {
+		return false, false
+	}
+	prm := fn.Params[0]
+	var evalV func(v ssa.Value, from *ssa.BasicBlock, at *ssa.BasicBlock, d int) (constant.Value, bool)
+	evalV = func(v ssa.Value, from, at *ssa.BasicBlock, d int) (constant.Value, bool) {
+		if d > 8 {
+			return nil, false
+		}
+		switch x := v.(type) {
+		case *ssa.Parameter:
+			if x == prm {
+				return val, true
+			}
+		case *ssa.Const:
+			if x.Value != nil {
+				return x.Value, true
+			}
+		case *ssa.Phi:
+			if x.Block() == at && from != nil {
+				for i, p := range at.Preds {
+					if p == from {
+						return evalV(x.Edges[i], nil, nil, d+1)
+					}
+				}
+			}
+		case *ssa.UnOp:
+			if x.Op == token.NOT {
+				if c, ok := evalV(x.X, from, at, d+1); ok && c.Kind() == constant.Bool {
+					return constant.MakeBool(!constant.BoolVal(c)), true
+				}
+			}
+		case *ssa.BinOp:
+			l, ok1 := evalV(x.X, from, at, d+1)
+			r, ok2 := evalV(x.Y, from, at, d+1)
+			if ok1 && ok2 {
+				switch x.Op {
+				case token.EQL, token.NEQ, token.LSS, token.LEQ, token.GTR, token.GEQ:
+					if l.Kind() == r.Kind() {
+						return constant.MakeBool(constant.Compare(l, x.Op, r)), true
+					}
+				}
+			}
+		case *ssa.ChangeType:
+			return evalV(x.X, from, at, d+1)
+		case *ssa.Convert:
+			return evalV(x.X, from, at, d+1)
+		}
+		return nil, false
+	}
+	b := fn.Blocks[0]
+	var from *ssa.BasicBlock
+	for steps := 0; steps < 200; steps++ {
+		last := b.Instrs[len(b.Instrs)-1]
+		switch x := last.(type) {
+		case *ssa.Return:
+			if len(x.Results) != 1 {
+				return false, false
+			}
+			c, ok := evalV(x.Results[0], from, b, 0)
+			if !ok || c.Kind() != constant.Bool {
+				return false, false
+			}
+			return constant.BoolVal(c), true
+		case *ssa.If:
+			c, ok := evalV(x.Cond, from, b, 0)
+			if !ok || c.Kind() != constant.Bool {
+				return false, false
+			}
+			from = b
+			if constant.BoolVal(c) {
+				b = b.Succs[0]
+			} else {
+				b = b.Succs[1]
+			}
+		case *ssa.Jump:
+			from, b = b, b.Succs[0]
+		default:
+			return false, false
+		}
+	}
+	return false, false
 }
